@@ -300,6 +300,29 @@ func runC16(s *Sim) {
 			return
 		}
 	}
+	// only frames touching the damage may be dropped: every frame none of whose bytes (delimiters included) was
+	// overwritten or lost, and into which nothing was inserted, is delivered intact, in order (extra or mangled
+	// deliveries made of the damaged bytes may lie in between)
+	gi := 0
+	for i := range frames {
+		if touched[i] {
+			continue
+		}
+		found := false
+		for gi < len(got) {
+			if bytes.Equal(got[gi], frames[i]) {
+				found = true
+				gi++
+				break
+			}
+			gi++
+		}
+		if !found {
+			s.Fail("C16", "damage-untouched-lost", "%s: frame %d (%d bytes, stream offsets %d..%d) is not touched by the damage but was not delivered intact in order; delivered lengths %v of written %v",
+				damage, i, len(frames[i]), starts[i], ends[i], lens(got), lens(frames))
+			return
+		}
+	}
 	s.Probe("damage-runs")
 }
 
